@@ -554,6 +554,34 @@ example : |((10 : ℚ), (50 : ℚ)).2| ≤ 90 ∧ |((-170 : ℚ), (-35 : ℚ)).2
   ⟨by norm_num, by norm_num, by norm_num, by decide +kernel⟩
 
 open Geo.GeodesyNum in
+/-- [T] in general position the single inversion is Lipschitz too: if the engine's `h` stays
+`δ²/4 + 2^-87` away from 0 and 1 and its arcsine `δ/2` away from 0 and `piQ/2` (four rational
+comparisons on model values, `δ` about the angular distance from coincidence / antipodality), the
+engine is within `R·2^-84/δ` of the real formula — e.g. `δ = 2^-20` (6 m on the Earth): 4e-13 m. -/
+theorem haversine_distance_engine_close_interior_partial (at2 : ℝ → ℝ → ℝ) (R : ℚ) (hR : 0 ≤ R)
+    (δ : ℚ) (hδ0 : 0 < δ) (hδ1 : δ ≤ 1) (a b : P2 ℚ)
+    (ha : |a.2| ≤ 90) (hb : |b.2| ≤ 90) (hl : |b.1 - a.1| ≤ 1000) (hc : havCert a b = true)
+    (hh1 : δ ^ 2 / 4 + 1 / 2 ^ 87 ≤ havH ratTrig a b) (hh2 : havH ratTrig a b ≤ 1 - δ ^ 2 / 4 - 1 / 2 ^ 87)
+    (ha1 : δ / 2 ≤ asinQ (sqrtQ (havH ratTrig a b))) (ha2 : asinQ (sqrtQ (havH ratTrig a b)) ≤ piQ / 2 - δ / 2) :
+    |((havDistance ratTrig R a b : ℚ) : ℝ) - havDistance (realTrig at2) (R : ℝ) (castP a) (castP b)|
+      ≤ (R : ℝ) / ((δ : ℝ) * 2 ^ 84) := by
+  rw [havDistance_rat_eq, havDistance_real_eq]
+  have h := C16Q.central_angle_close_interior δ hδ0 hδ1 a b ha hb hl hc hh1 hh2 ha1 ha2
+  have hRR : (0 : ℝ) ≤ (R : ℝ) := by exact_mod_cast hR
+  rw [Rat.cast_mul, ← mul_sub, abs_mul, abs_of_nonneg hRR, div_eq_mul_one_div]
+  exact mul_le_mul_of_nonneg_left h hRR
+-- full statement (not proved): the same without `havCert a b = true`.
+
+example :
+    let a : P2 ℚ := (10, 50); let b : P2 ℚ := (-170, -35); let δ : ℚ := 1 / 1000
+    δ ^ 2 / 4 + 1 / 2 ^ 87 ≤ havH Geo.GeodesyNum.ratTrig a b ∧
+    havH Geo.GeodesyNum.ratTrig a b ≤ 1 - δ ^ 2 / 4 - 1 / 2 ^ 87 ∧
+    δ / 2 ≤ Geo.GeodesyNum.asinQ (Geo.GeodesyNum.sqrtQ (havH Geo.GeodesyNum.ratTrig a b)) ∧
+    Geo.GeodesyNum.asinQ (Geo.GeodesyNum.sqrtQ (havH Geo.GeodesyNum.ratTrig a b)) ≤
+      Geo.GeodesyNum.piQ / 2 - δ / 2 := by
+  decide +kernel
+
+open Geo.GeodesyNum in
 /-- [T] on the mean Earth radius: 6 micrometres. -/
 theorem haversine_distance_engine_close_mean_earth_partial (at2 : ℝ → ℝ → ℝ) (a b : P2 ℚ)
     (ha : |a.2| ≤ 90) (hb : |b.2| ≤ 90) (hl : |b.1 - a.1| ≤ 1000) (hc : havCert a b = true) :
